@@ -58,18 +58,22 @@ impl Decoder {
         let ((expected_size, used_bytes), data) = match decode_size(&self.stored) {
             Some(size_info) => (size_info, data),
             None => {
-                // we append at most the potential data needed to decode the size
-                let max_remaining = (MAX_ENCODED_SIZE - self.stored.len()).min(data.len());
-                self.stored.extend_from_slice(&data[..max_remaining]);
-
-                if let Some(x) = decode_size(&self.stored) {
-                    // Now we know the size
-                    (x, &data[max_remaining..])
-                }
-                else {
-                    // We still don't know the size (data was too small)
-                    return None;
-                }
+                // We append only the bytes needed to decode the size, never payload bytes:
+                // a look-ahead beyond the size could read past the end of a short frame.
+                let mut used = 0;
+                let size_info = loop {
+                    if used == data.len() {
+                        // We still don't know the size (data was too small)
+                        return None;
+                    }
+                    self.stored.push(data[used]);
+                    used += 1;
+                    if let Some(x) = decode_size(&self.stored) {
+                        // Now we know the size
+                        break x;
+                    }
+                };
+                (size_info, &data[used..])
             }
         };
 
